@@ -360,6 +360,9 @@ def gen_run(r, idx, prev=None, force_cdx=False, big=False):
     for i in range(n):
         sessions.append(gen_http(r, i, big and i == 0) if r.random() < 0.75 else gen_ftp(r, i))
     cfg['revisit'] = r.random() < 0.35
+    # one append of this lifetime fails with an I/O error after part of the record was written (and is rolled back); runs in which
+    # the failing append does not belong to an HTTP exchange are dropped after the fact
+    cfg['fail_write'] = [r.randrange(1, 10), r.choice([0, 1, 2])] if (sessions and r.random() < 0.18) else None
     visits = []
     if cfg['revisit']:
         for s in sessions:
@@ -386,6 +389,23 @@ def gen_run(r, idx, prev=None, force_cdx=False, big=False):
     else:
         for p in per:
             schedule += p
+    if r.random() < 0.12:
+        # two exchanges in flight: both request records are written, then the append of A's response record fails and is rolled back,
+        # and the very next record appended is B's response record
+        pair = []
+        for i in range(2):
+            for _ in range(30):
+                h = gen_http(r, i)
+                if h['truth']['fail'] is None and h['stop'] == 'complete':
+                    break
+            pair.append(h)
+        if all(h['truth']['fail'] is None and h['stop'] == 'complete' for h in pair):
+            sessions = pair
+            schedule = [[0, 'start'], [1, 'start'], [0, 'download'], [0, 'exit'], [1, 'download'], [1, 'exit']]
+            cfg['max_size'] = None
+            cfg['fail_write'] = [3, r.choice([0, 1, 2])]           # warcinfo, request A, request B, response A
+            cfg['visits'] = []
+            cfg['revisit'] = False
     return {'cfg': cfg, 'sessions': sessions, 'schedule': schedule}
 
 
@@ -487,9 +507,16 @@ def check_run(run, obs):
 
     def bad(why, **kw):
         V.append(dict(why=why, **kw))
+    if obs.get('fault_outside_http'):
+        # the injected I/O error hit an append that does not belong to an HTTP exchange (FTP session, warcinfo, log record): the
+        # lifetime ends with that error by design; nothing to judge
+        stats['fault_outside_http'] = 1
+        return V, stats
     if obs.get('error'):
         bad('recorder-raised', detail=obs['error'])
         return V, stats
+    if obs.get('fault') and obs['fault'].get('noted'):
+        stats['failed_appends'] = 1
     before = {k: bytes.fromhex(v) for k, v in obs['before'].items()}
     after = {k: bytes.fromhex(v) for k, v in obs['after'].items()}
     if obs.get('tmp_left'):
@@ -705,6 +732,8 @@ def _ops(obs):
                 e = 'HBeginResponse'
             elif what == 'end_response':
                 e = 'HEndResponse %d (%s)' % (ev[3], 'None' if ev[4] is None else 'Some (%s)' % Hs(ev[4]))
+            elif what == 'write_failed':
+                e = 'HWriteFailed'
             else:
                 e = 'HClose'
             out.append('OHttp %d%%nat (%s)' % (sid, e))
@@ -898,7 +927,7 @@ def model_compare(cases, results, default_software, limit=None, per_file=8):
     skipped = {}
     for c, res in zip(cases, results):
         for ri, (run, obs) in enumerate(zip(c['runs'], res['runs'])):
-            if obs.get('error'):
+            if obs.get('error') or obs.get('fault_outside_http'):
                 continue
             g = model_guard(run, obs)
             if g:
@@ -976,6 +1005,8 @@ def _distribution(cases, stats):
     d['http_header_blocks_over_32k_together'] = sum(1 for s in hs if s['truth'].get('huge'))
     d['http_failed'] = sum(1 for s in hs if s['truth']['fail'])
     d['interleaved'] = sum(1 for c in cases for r in c['runs'] if _interleaved(r))
+    d['lifetimes_with_a_failed_append_in_an_http_exchange'] = sum(s.get('failed_appends', 0) for s in stats)
+    d['lifetimes_dropped_fault_outside_http'] = sum(s.get('fault_outside_http', 0) for s in stats)
     return d
 
 
